@@ -87,8 +87,8 @@ ARG_POOL = (
 )
 
 BEHAVIOURS = ("sync", "default", "async", "awaitable", "nested", "gen",
-              "rtapi")
-BEHAVIOUR_WEIGHTS = (5, 3, 5, 3, 2, 2, 2)
+              "rtapi", "shared", "tdefault")
+BEHAVIOUR_WEIGHTS = (5, 3, 5, 3, 2, 2, 2, 2, 2)
 
 
 class FieldDef:
@@ -378,6 +378,8 @@ def gen_schema(st, want_mutation=False, small=False,
             if b == "default" and tname in ("Query", "Mutation",
                                             "Subscription"):
                 b = "sync"  # root value is None
+            if b == "tdefault" and tname == "Subscription":
+                b = "sync"
             spec.behaviours[(tname, f)] = b
     for aname in list(spec.interfaces) + list(spec.unions):
         spec.resolve_type[aname] = ("attr", "fn-type", "fn-name")[
@@ -480,6 +482,7 @@ class OpSpec:
         self.fragments = {}   # name -> (cond type, selections)
         self.vars = {}        # name -> VarInfo (insertion ordered)
         self.extra_op = False
+        self.extra_first = False
         self.operation_name = None
         self.text = None
 
@@ -913,6 +916,7 @@ class OpGen:
         if st.chance(1, 6, "extra_op"):
             op.name = "Main"
             op.extra_op = True
+            op.extra_first = bool(st.below(2, "extra_first"))
             op.operation_name = "Main"
         elif op.name and st.chance(1, 2, "opname"):
             op.operation_name = "Main"
@@ -1098,13 +1102,16 @@ def render(op, layout=0):
                 vs.append(v)
             head += "(%s)" % ", ".join(vs)
         head += " "
+    if op.extra_op and op.extra_first:
+        o.w("query Other { __typename }")
+        o.w(o.newline if o.multiline else " ")
     o.w(head)
     selset(op.sel)
     for name, (cond, sels) in op.fragments.items():
         o.w(o.newline if o.multiline else " ")
         o.w("fragment %s on %s " % (name, cond))
         selset(sels)
-    if op.extra_op:
+    if op.extra_op and not op.extra_first:
         o.w(o.newline if o.multiline else " ")
         o.w("query Other { __typename }")
     op.text = "".join(o.parts)
